@@ -1,7 +1,7 @@
 """C05 — arithmetic identities. Spec: MBF.tla (decode, exact order, Neg/Abs/Sign, Wider); oracle self-check MBF_MC;
 trace spec C05_Trace."""
 import time
-from ..mbfdrv import (Drv, typ, int_bytes, flt_of_int, neighbour, negated, rand_float, rand_value, rand_int, CVFN, SIZE)
+from ..mbfdrv import (Drv, Pipeline, Sink, typ, int_bytes, flt_of_int, neighbour, negated, rand_float, rand_value, rand_int, CVFN, SIZE)
 
 LEVEL = 'exploration'
 META = {
@@ -31,7 +31,23 @@ def run(ctx):
     d = Drv()
     bv = d.bv
     fns = {'add': bv.add, 'sub': bv.sub, 'mul': bv.mul, 'div': bv.div}
-    events = []
+
+    def on_reject(clause, e):
+        tx, ty = e['tx'], e['ty']
+        wt = ty if ty in 'isd' and 'isd'.index(ty) > 'isd'.index(tx) else tx
+        res = e.get('b', e.get('b1'))
+        key = {'clause': clause, 'id': e['id'], 'op': e['op'], 'tx': tx, 'ty': ty, 'wt': wt,
+               'xexp': e['x'][-1] if tx != 'i' else -1, 'yexp': e['y'][-1] if ty in 'sd' else -1,
+               'k': e.get('k', e.get('k1')), 'result_is_zero': bool(res) and len(res) > 2 and res[-1] == 0,
+               'via': e['via']}
+        ctx.reject('C05 %s: %s %s x=%s%s y=%s%s -> %s' % (
+            clause, e['id'], e['op'], tx, e['x'], ty, e['y'],
+            [e.get(f) for f in ('k', 't', 'b', 'c', 'k1', 't1', 'b1', 'c1', 'k2', 't2', 'b2', 'c2', 'detail') if f in e]),
+            key=key, data=e)
+
+    pipe = Pipeline(ctx, 'C05_Trace', on_reject, lambda e: [e['id'], e['op'], e['x'], e['y'], e['via']],
+                    parallel=2 if quick else 4)
+    events = Sink(ctx, pipe, lambda e: e['id'] + ':' + e['op'], ['comm:mul', 'ident:mul1', 'promo:add', 'ident:sgn', 'ident:subself'])
     ptext = 0.05 if quick else 0.03
     unit = {}
     for (t, n), lit in UNIT_LIT.items():
@@ -100,7 +116,7 @@ def run(ctx):
             ident_binary(x, [rng.choice('isd')] if quick else ['i', 's', 'd'], text)
 
     # ---- float operands ----------------------------------------------------------
-    nflt = ctx.pick(9000, 300000)
+    nflt = ctx.pick(7000, 150000)
     for t in ('s', 'd'):
         for i in range(nflt):
             x = rand_float(rng, t)
@@ -151,7 +167,7 @@ def run(ctx):
             y = negated(y)
         return x, y
 
-    ncomm = ctx.pick(5000, 150000)
+    ncomm = ctx.pick(5000, 100000)
     for tx in 'isd':
         for ty in 'isd':
             for _ in range(ncomm):
@@ -176,34 +192,10 @@ def run(ctx):
                     events.append(e)
     d.close()
     ctx.cov['impl_wall_s'] = round(time.time() - t0, 1)
+    pipe.finish()
     ctx.cov['calls_direct'] = d.ndirect
     ctx.cov['calls_via_basic_text'] = d.ntext
-
-    ops = {}
-    for e in events:
-        ctx.count([e['id'], e['op'], e['x'], e['y'], e['via']])
-        ops[e['id'] + ':' + e['op']] = ops.get(e['id'] + ':' + e['op'], 0) + 1
-    ctx.cov['events_by_identity'] = ops
-    for want in (('comm', 'mul'), ('ident', 'mul1'), ('promo', None), ('ident', 'sgn')):
-        ctx.sample(next(e for e in events if e['id'] == want[0] and (want[1] is None or e['op'] == want[1])))
-    CH = 150000
-    for at in range(0, len(events), CH):
-        chunk = events[at:at + CH]
-        verdicts = ctx.validate('C05_Trace', [{k: v for k, v in e.items() if k not in ('via', 'detail')} for e in chunk])
-        ctx.cov['traces_validated_against_impl'] += 1
-        for (i, clause) in verdicts:
-            e = chunk[i - 1]
-            tx, ty = e['tx'], e['ty']
-            wt = ty if ty in 'isd' and 'isd'.index(ty) > 'isd'.index(tx) else tx
-            res = e.get('b', e.get('b1'))
-            key = {'clause': clause, 'id': e['id'], 'op': e['op'], 'tx': tx, 'ty': ty, 'wt': wt,
-                   'xexp': e['x'][-1] if tx != 'i' else -1, 'yexp': e['y'][-1] if ty in 'sd' else -1,
-                   'k': e.get('k', e.get('k1')), 'result_is_zero': bool(res) and len(res) > 2 and res[-1] == 0,
-                   'via': e['via']}
-            ctx.reject('C05 %s: %s %s x=%s%s y=%s%s -> %s' % (
-                clause, e['id'], e['op'], tx, e['x'], ty, e['y'],
-                [e.get(f) for f in ('k', 't', 'b', 'c', 'k1', 't1', 'b1', 'c1', 'k2', 't2', 'b2', 'c2', 'detail') if f in e]),
-                key=key, data=e)
+    ctx.cov['events_by_identity'] = pipe.by
     ctx.assumptions += ['TLC evaluates MBF.tla correctly (self-checked against native arithmetic on the reduced format by MBF_MC)',
                         'direct calls run with the floating-point error handler in raising mode (as under ON ERROR GOTO); on the '
                         'BASIC-text path errors are read from the console message']
